@@ -503,7 +503,7 @@ func isZeroNum(b []byte) bool {
 
 func run(c *Ctx) error {
 	r := c.Rng
-	n := c.N(500, 3000)
+	n := c.N(500, 2000)
 	knownReported := 0
 	hung := false
 	for idx := 0; idx < n && !hung; idx++ {
@@ -541,7 +541,11 @@ func run(c *Ctx) error {
 			p := g.program(1, &d, 0)
 			for lvl := 0; lvl < 4; lvl++ {
 				child := assemble(p)
-				p = []ins{pushInt(0), push(child), pushInt(g.limitArg()), raw(0xc0)}
+				lim := uint64(0) // 0 = hand the child everything that is left
+				if r.Chance(40) {
+					lim = g.limitArg()
+				}
+				p = []ins{pushInt(0), push(child), pushInt(lim), raw(0xc0)}
 				if r.Chance(50) {
 					p = append(p, g.neutral()...)
 				}
@@ -563,6 +567,9 @@ func run(c *Ctx) error {
 			}
 		}
 		cs.Gas = gasLimit(r, gcap)
+		if kind == "deep-nesting" && cs.Gas < 2000 && r.Chance(80) {
+			cs.Gas += 2000 // four nested CHECKPREDICATEs cost 4*256 before the innermost child starts
+		}
 		switch r.Intn(4) {
 		case 0, 1:
 			cs.TxVersion = vmlib.U64(1)
